@@ -161,6 +161,48 @@ def parse (i : Idx) (doc : Node) : Idx :=
 
 end Idx
 
+
+/-! ### indexing at creation with its failure explicit; the indexed parser's handlers at token level (C03)
+
+Additions for C03 ("indexing at creation never fails"); nothing above changes.  `indexOther` above answers
+`other` where the code would raise KeyError (`parser._otherAttributeIndexes[attributeName]` with the key
+missing).  The variants below keep that failure (`none`).  The handlers of `IndexedAdvancedHTMLParser` over the
+token sequence (the inherited handler of the plain parser, then `_indexTag(newTag)`) are in
+`Lemmas/TotalIndexModel.lean`: this file cannot import `Model/Builder.lean` without re-resolving `Node` in the
+C06/C07 files. -/
+
+namespace Idx
+
+/-- one `_OtherAttributeIndexFunction.__call__`; `none` = KeyError -/
+def indexOtherE (other : List (Str × List (Str × List Nat))) (a : Str) (e : Elem) :
+    Option (List (Str × List (Str × List Nat))) :=
+  match e.attr a with
+  | none => some other
+  | some v =>
+    match other.lookup a with
+    | none => none
+    | some m => some (assocSet other a (assocPush m v e.uid))
+
+/-- the loop over `otherAttributeIndexFunctions.values()`; the first KeyError ends it -/
+def indexOthersLE (e : Elem) : List Str → List (Str × List (Str × List Nat)) →
+    Option (List (Str × List (Str × List Nat)))
+  | [], o => some o
+  | a :: as, o =>
+    match indexOtherE o a e with
+    | some o' => indexOthersLE e as o'
+    | none => none
+
+/-- `_indexTag` with the KeyError kept (the four built-in index functions cannot fail: `getAttribute`, a dict
+    assignment with a `str` key, `defaultdict(list)[…].append`) -/
+def indexTagE (i : Idx) (e : Elem) : Option Idx :=
+  let i := if i.fnIDs then indexID i e else i
+  let i := if i.fnNames then indexName i e else i
+  let i := if i.fnClassNames then indexClassName i e else i
+  let i := if i.fnTagNames then indexTagName i e else i
+  (indexOthersLE e i.otherFns i.other).map (fun o => { i with other := o })
+
+end Idx
+
 /-! ### the parent chain -/
 
 mutual
